@@ -8,6 +8,7 @@
 //! A panic inside the code under test is data: got = {"panic": msg}.
 mod proj_quill;
 mod gen_quill;
+mod jarkit;
 mod drivers;
 
 // The binary crate of /repo exposes no library: its version graph and bridge-method modules are compiled into the
@@ -19,6 +20,9 @@ pub mod download { pub mod versions_manifest { #[derive(Debug, Clone, PartialEq)
 #[allow(dead_code, deprecated, unused)]
 #[path = "/repo/src/version_graph.rs"]
 mod version_graph;
+#[allow(dead_code, deprecated, unused)]
+#[path = "/repo/src/specialized_methods/mod.rs"]
+mod specialized_methods;
 
 use std::io::{BufRead, BufReader, BufWriter, Write};
 use std::panic::{catch_unwind, AssertUnwindSafe};
